@@ -10,6 +10,7 @@ import (
 	"strings"
 	"testing"
 	"testing/synctest"
+	"time"
 
 	"golang.org/x/net/internal/zzverif/vx"
 )
@@ -190,4 +191,75 @@ func qpeerDeadlineYield[T any](c *vx.Ctx, yield func(T) bool) func(T) bool {
 		}
 		return yield(x)
 	}
+}
+
+// qpeerGen is a pure generator-side model used to prune an enumeration of
+// operation sequences; it never takes part in an oracle.
+type qpeerGen interface {
+	Enabled(op string) bool
+	// Apply returns the model after op; terminal means no operation may follow.
+	Apply(op string) (next qpeerGen, terminal bool)
+}
+
+// qpeerEnumerate yields every enabled operation sequence of length 1..depth,
+// shortest first, in alphabet order.
+func qpeerEnumerate(root qpeerGen, ops []string, depth int, yield func(path []string) bool) bool {
+	type node struct {
+		g    qpeerGen
+		path []string
+	}
+	level := []node{{g: root}}
+	for d := 1; d <= depth; d++ {
+		var next []node
+		for _, nd := range level {
+			for _, op := range ops {
+				if !nd.g.Enabled(op) {
+					continue
+				}
+				path := append(append([]string(nil), nd.path...), op)
+				if !yield(path) {
+					return false
+				}
+				if d < depth {
+					if g, terminal := nd.g.Apply(op); !terminal {
+						next = append(next, node{g: g, path: path})
+					}
+				}
+			}
+		}
+		level = next
+	}
+	return true
+}
+
+// loseOutstanding makes the conn declare every unacknowledged 1-RTT packet
+// sent so far lost: three PINGs are sent and only the last one is acknowledged
+// (packet threshold 3). The packets read meanwhile are returned.
+func (q *qpeerConn) loseOutstanding() []qpeerPacket {
+	start := len(q.sent)
+	for i := 0; i < 3; i++ {
+		q.tc.conn.ping(appDataSpace)
+		q.drain()
+	}
+	if len(q.sent) > start {
+		q.ackRange(q.maxPnum, q.maxPnum+1)
+	}
+	q.drain()
+	return q.sent[start:]
+}
+
+// advanceToPTO sleeps (fake time) until the conn's PTO timer; false if it is not armed.
+func (q *qpeerConn) advanceToPTO() bool {
+	var armed bool
+	var when time.Time
+	q.tc.conn.runOnLoop(q.t.Context(), func(now time.Time, c *Conn) {
+		armed = c.loss.ptoTimerArmed
+		when = c.loss.timer
+	})
+	if !armed || when.IsZero() {
+		return false
+	}
+	time.Sleep(time.Until(when))
+	synctest.Wait()
+	return true
 }
